@@ -151,10 +151,11 @@ func execEnv(env expand.Environ) []string {
 }
 
 func (r *Runner) lookupVar(name string) expand.Variable {
-	if name == "" {
-		panic("variable name must not be empty")
-	}
 	var vr expand.Variable
+	if name == "" {
+		// Reachable via e.g. 'unset ""' or '[[ -v "" ]]'; never set.
+		return vr
+	}
 	switch name {
 	case "#":
 		vr.Kind, vr.Str = expand.String, strconv.Itoa(len(r.Params))
